@@ -305,7 +305,7 @@ func eachState(slots []slotT, f func(st liveState)) {
 func TestC10c(t *testing.T) {
 	env := engine.GetEnv()
 	res := engine.NewResult("C10", "c-arrival-orders")
-	res.Rule = "history = a start configuration + a sequence of single-object operations (create / replace / delete) on four PeerAuthentication slots {mesh-wide x4 modes, namespace-wide x4 modes, workload policy x4 modes x {no port entry, 8080:DISABLE/PERMISSIVE/STRICT}, an older competitor at mesh/namespace/workload level x2}; (i) every sequence of <=3 operations from the empty configuration (all arrival orders of up to 3 objects, create-update, create-delete); (ii) every arrival order of every complete 4-object configuration; (iii) every single operation from every configuration present at start (thorough: every two operations); the real PolicyCollections + Builder.WorkloadsCollection run in a synctest bubble and are judged by R6 after every step at quiescence; non-trivial = history whose last operation changes the expected modes or the workload's policy references"
+	res.Rule = "history = a start configuration + a sequence of single-object operations (create / replace / delete) on four PeerAuthentication slots {mesh-wide x4 modes, namespace-wide x4 modes, workload policy x4 modes x {no port entry, 8080:DISABLE/PERMISSIVE/STRICT}, an older competitor at mesh/namespace/workload level x2}; (i) every sequence of <=3 operations from the empty configuration (all arrival orders of up to 3 objects, create-update, create-delete); (ii) every arrival order of every complete 4-object configuration (quick: mesh-wide in {PERMISSIVE,STRICT} x namespace-wide in {UNSET,STRICT}); (iii) every single operation from every configuration present at start (thorough: every two operations); the real PolicyCollections + Builder.WorkloadsCollection run in a synctest bubble and are judged by R6 after every step at quiescence; non-trivial = history whose last operation changes the expected modes or the workload's policy references"
 	defer res.Write(t, env)
 	slots := liveSlots()
 	lc := &liveChecker{t: t, res: res, slots: slots, cold: map[liveState]liveObs{}}
@@ -372,6 +372,11 @@ func TestC10c(t *testing.T) {
 			if v < 0 {
 				return
 			}
+		}
+		if !env.Thorough() && !(st[0] >= 2 && (st[1] == 0 || st[1] == 3)) {
+			// quick: mesh-wide in {PERMISSIVE, STRICT} x namespace-wide in {UNSET, STRICT} (the pairs
+			// that decide whether strictness is inherited); thorough: all 16 pairs
+			return
 		}
 		engine.Permutations(4, func(_ int64, perm []int) bool {
 			ops := make([]liveOp, 0, 4)
